@@ -7,7 +7,7 @@ SPEC = {
     "suites": [
         Suite(name="start", harness="vh_start", runner="start",
               model_deps=["theories/Model/Start.vo"],
-              quick_n=1800, thorough_n=20000, timeout=1500,
+              quick_n=2000, thorough_n=20000, timeout=1500,
               rule="the harness binary re-executes itself as an instrumented application main (start_test.go's technique) that "
                    "logs the marker variables it finds and calls the REAL telemetry.Start with the telemetry directory "
                    "redirected; the sidecar Start launches is the same binary and logs too; a symlink `go` first on PATH "
@@ -17,7 +17,10 @@ SPEC = {
                    "enters telemetry by Start alone or by MaybeChild first and Start later (the cmd/go pattern; the sidecar "
                    "is the same program, the fake go command always uses the MaybeChild pattern). Cases: the full "
                    "table entry {Start, MaybeChild-then-Start} x marker {unset, \"\", 1, 2, x} x ReportCrashes x Upload x mode {on, local, off, garbage} x token "
-                   "{absent, 1h, 25h} (480), then generated cases adding more markers (0, 11, \" 1\", true, 3), 14 mode-file "
+                   "{absent, 1h, 25h} (480); 40 cases with NO telemetry directory (no Config.TelemetryDir and HOME/XDG_CONFIG_HOME "
+                   "unset, so os.UserConfigDir fails and telemetry.Default is the zero Dir) and 64 "
+                   "with the default directory below XDG_CONFIG_HOME; every process runs in an empty working directory whose "
+                   "contents are part of the watched snapshot; then generated cases adding more markers (0, 11, \" 1\", true, 3), 14 mode-file "
                    "contents incl. absent/near-off, token ages (0, 1min, 23h50, future, 24h10, 25h, 1y), upload variable "
                    "pre-set, local/ and debug/ pre-existing, telemetry directory unreachable; observed per case: exit "
                    "status, whether Start returned, every process record (kind, marker, upload variable), token "
@@ -39,7 +42,8 @@ SPEC = {
                   "(C16_entry_points_agree, _child_marks_environment, _marker2_inert, _*_any_entry); every process caused to any depth is the one sidecar or "
                   "a delegated program that finds marker 2, at most one sidecar per application, none below a sidecar "
                   "(C16_process_tree_shape, _sidecars_bounded, _no_recursion); mode off: nothing launched by anybody, the "
-                  "application's Start only reads the mode file (C16_off_inert_*); for EVERY schedule of ANY number of "
+                  "application's Start only reads the mode file (C16_off_inert_*); without a telemetry directory (no TelemetryDir, "
+                  "no user configuration directory) the same holds whatever files exist (C16_no_directory_*); for EVERY schedule of ANY number of "
                   "starters with time passing, within less than the 24h period and the token absent or young through the "
                   "window, at most one acquires the token, and none if it was present (C16_token_at_most_once, "
                   "_token_fresh_no_winner); the stale-token race is exhibited (C16_token_stale_refuted).",
